@@ -1,7 +1,7 @@
 (* C02/LemSession.v -- a parser object answers the same at every moment of its life
    (model level; see C02/Session.v for what the correspondence run adds). *)
 From Coq Require Import ZArith List Bool Lia.
-From AK Require Import Common.Err LLP.Base LLP.Table LLP.Build C02.Model C02.Session.
+From AK Require Import Common.Err LLP.Base LLP.Table LLP.Build C02.Model C02.Session C02.LemReject.
 Import ListNotations.
 
 (* ---- the methods hand back the parser they were given ---- *)
@@ -13,6 +13,19 @@ Proof. reflexivity. Qed.
 
 Lemma m_parse_result : forall p k toks, snd (m_parse p k toks) = p_parse p k toks.
 Proof. reflexivity. Qed.
+
+Lemma m_parse_from_same : forall p k s toks, fst (m_parse_from p k s toks) = p.
+Proof. reflexivity. Qed.
+
+(* parse(text) is parse(text, start_symbol_name = the constructor's start symbol) *)
+Lemma p_parse_from_start : forall ug terminals smart start p k toks,
+  build ug terminals smart start = Ok p -> mem start (gkeys (p_grammar p)) = true ->
+  p_parse_from p k (p_start p) toks = p_parse p k toks.
+Proof.
+  intros ug terminals smart start p k toks B M. unfold p_parse_from, p_parse.
+  destruct (build_fields _ _ _ _ _ B) as [_ [_ [Hs _]]]. rewrite Hs.
+  rewrite M. reflexivity.
+Qed.
 
 Lemma m_is_ambiguous_result : forall p, snd (m_is_ambiguous p) = is_ambiguous (p_tables p).
 Proof. reflexivity. Qed.
@@ -59,7 +72,7 @@ Section S.
   (* an operation never leaves an object in a state the constructor does not produce *)
   Lemma do_op_world : forall W o, world_ok W -> world_ok (fst (do_op W o)).
   Proof.
-    intros W o HW. destruct o as [w|w|w i]; cbn [Session.do_op].
+    intros W o HW. destruct o as [w|w|w i|w i s]; cbn [Session.do_op].
     - destruct (build ug terminals w start) as [p|e] eqn:B; cbn [fst]; apply world_set; auto.
       right. unfold Session.fresh_obj. rewrite B. reflexivity.
     - destruct (get_obj W w) as [p|] eqn:G; cbn [fst]; auto.
@@ -67,6 +80,9 @@ Section S.
     - destruct (get_obj W w) as [p|] eqn:G; cbn [fst]; auto.
       destruct (nth_error inputs i) as [inp|]; cbn [fst]; auto.
       unfold m_parse. cbn [fst]. rewrite <- G, set_get_id. exact HW.
+    - destruct (get_obj W w) as [p|] eqn:G; cbn [fst]; auto.
+      destruct (nth_error inputs i) as [inp|]; cbn [fst]; auto.
+      unfold m_parse_from. cbn [fst]. rewrite <- G, set_get_id. exact HW.
   Qed.
 
   (* ... and answers what a never-used object answers (or there is no object) *)
@@ -75,10 +91,13 @@ Section S.
     intros W o [H0 H1]. unfold Session.fresh_obs.
     assert (HS : forall w, get_obj W w = None \/ get_obj W w = get_obj fresh_world w).
     { intro w. rewrite fresh_get. destruct w; [exact H1|exact H0]. }
-    destruct o as [w|w|w i]; cbn [Session.do_op].
+    destruct o as [w|w|w i|w i s]; cbn [Session.do_op].
     - right. destruct (build ug terminals w start); reflexivity.
     - destruct (HS w) as [E|E]; rewrite E; [left; reflexivity|].
       right. destruct (get_obj fresh_world w); reflexivity.
+    - destruct (HS w) as [E|E]; rewrite E; [left; reflexivity|].
+      right. destruct (get_obj fresh_world w); [|reflexivity].
+      destruct (nth_error inputs i); reflexivity.
     - destruct (HS w) as [E|E]; rewrite E; [left; reflexivity|].
       right. destruct (get_obj fresh_world w); [|reflexivity].
       destruct (nth_error inputs i); reflexivity.
@@ -155,6 +174,14 @@ Section S.
     unfold Session.fresh_obj. rewrite B, I. reflexivity.
   Qed.
 
+  Lemma fresh_obs_parse_from : forall w i s p inp, build ug terminals w start = Ok p ->
+    nth_error inputs i = Some inp ->
+    fresh_obs (OParseFrom w i s) = BParse (p_parse_from p fuel s (mk_toks inp)).
+  Proof.
+    intros w i s p inp B I. unfold Session.fresh_obs. cbn [Session.do_op]. rewrite fresh_get.
+    unfold Session.fresh_obj. rewrite B, I. reflexivity.
+  Qed.
+
   (* whenever object w answers is_ambiguous(), in any program, it answers what the
      freshly constructed parser answers *)
   Lemma is_ambiguous_any_moment_l : forall ops n w b p,
@@ -182,6 +209,19 @@ Section S.
     - rewrite (fresh_obs_parse w i p inp B I) in H. inversion H. reflexivity.
   Qed.
 
+  Lemma parse_from_any_moment_l : forall ops n w i s inp r p,
+    build ug terminals w start = Ok p ->
+    nth_error inputs i = Some inp ->
+    nth_error ops n = Some (OParseFrom w i s) ->
+    nth_error (session no_objects ops) n = Some (BParse r) ->
+    r = p_parse_from p fuel s (mk_toks inp).
+  Proof.
+    intros ops n w i s inp r p B I Ho Hb.
+    pose proof (Forall2_nth _ _ _ _ _ n _ _ (session_history_independent_l ops) Ho Hb) as [H|H].
+    - discriminate.
+    - rewrite (fresh_obs_parse_from w i s p inp B I) in H. inversion H. reflexivity.
+  Qed.
+
   (* an object that exists does answer: after a successful OBuild w, as long as no later
      OBuild w raises, OAmb w / OParse w i (i a valid index) are never BNone *)
   Lemma built_answers : forall ops W w p,
@@ -189,7 +229,7 @@ Section S.
     forall n o b, nth_error ops n = Some o -> nth_error (session W ops) n = Some b ->
       match o with
       | OAmb v => v = w -> b <> BNone
-      | OParse v i => v = w -> (i < length inputs)%nat -> b <> BNone
+      | OParse v i | OParseFrom v i _ => v = w -> (i < length inputs)%nat -> b <> BNone
       | OBuild _ => b <> BNone
       end.
   Proof.
@@ -198,16 +238,19 @@ Section S.
     destruct n as [|n].
     - cbn in Ho. inversion Ho; subst o'. clear Ho.
       destruct (do_op W o) as [W' b'] eqn:D. cbn in Hb. inversion Hb; subst b'. clear Hb.
-      destruct o as [v|v|v i]; cbn [Session.do_op] in D.
+      destruct o as [v|v|v i|v i s]; cbn [Session.do_op] in D.
       + destruct (build ug terminals v start); inversion D; discriminate.
       + intros ->. rewrite G in D. inversion D. discriminate.
+      + intros -> Hi. rewrite G in D.
+        destruct (nth_error inputs i) eqn:I; [inversion D; discriminate|].
+        apply nth_error_None in I. lia.
       + intros -> Hi. rewrite G in D.
         destruct (nth_error inputs i) eqn:I; [inversion D; discriminate|].
         apply nth_error_None in I. lia.
     - cbn in Ho. destruct (do_op W o) as [W' b'] eqn:D. cbn in Hb.
       apply (IH W' w p) with (n := n); auto.
       assert (W' = fst (do_op W o)) as -> by (rewrite D; reflexivity).
-      destruct o as [v|v|v i]; cbn [Session.do_op].
+      destruct o as [v|v|v i|v i s]; cbn [Session.do_op].
       + destruct (Bool.bool_dec v w) as [->|Hne].
         * rewrite B. cbn [fst]. apply get_set_same.
         * assert (w = negb v) as -> by (destruct v, w; try reflexivity; exfalso; apply Hne; reflexivity).
@@ -217,5 +260,8 @@ Section S.
       + destruct (get_obj W v) eqn:G'; cbn [fst]; auto.
         destruct (nth_error inputs i); cbn [fst]; auto.
         unfold m_parse. rewrite <- G', set_get_id. exact G.
+      + destruct (get_obj W v) eqn:G'; cbn [fst]; auto.
+        destruct (nth_error inputs i); cbn [fst]; auto.
+        unfold m_parse_from. rewrite <- G', set_get_id. exact G.
   Qed.
 End S.
